@@ -108,6 +108,20 @@ def bc_search_cases(draw):
             "outputtypes": ["BinCount", "Sums", draw(st.sampled_from(["SortedSums", "PartitionAndSumsTuple", "LargestSum"]))]}
 
 
+@st.composite
+def larger_cases(draw):
+    """The four fit heuristics on 15-150 items (cheap at any size): size thresholds, many bins, long runs of equal items."""
+    alg = draw(st.sampled_from(["ff", "ffd", "bf", "bfd"]))
+    C = draw(S.binsizes())
+    profile, values = draw(S.packing_values(C, 15, draw(st.sampled_from([40, 80, 150]))))
+    case = {"alg": alg, "values": values, "binsize": C, "nseed": draw(st.integers(0, 5)), "profile": "large-" + profile,
+            "pres": draw(st.sampled_from(["list", "list", "array", "dict-str", "dict-int", "names", "names-array"])),
+            "outputtypes": ["BinCount", "Sums", draw(st.sampled_from(["SortedSums", "PartitionAndSumsTuple", "LargestSum", "ExtremeSums"]))]}
+    if draw(st.integers(0, 4)) == 0:
+        case["den"] = 8
+    return case
+
+
 def legs(tier):
     return [
         Leg("corpus", evaluate, "committed regression inputs (cited instances, inputs that exposed repaired defects)",
@@ -117,6 +131,8 @@ def legs(tier):
             "planted-perfect, ints or eighths, 5 presentations, extra output type); non-trivial = needs >= 2 bins, and "
             "for bin_completion additionally BFD uses more bins than ceil(total/binsize) (its search is entered)",
             strategy=random_cases(), n_quick=6000, n_thorough=150000, valid=cases.valid_packing_case, floor=0.3),
+        Leg("larger", evaluate, "hypothesis: ff | ffd | bf | bfd on 15-150 items, seven presentations, ints or eighths; same predicates; "
+            "non-trivial = needs >= 2 bins", strategy=larger_cases(), n_quick=2000, n_thorough=40000, valid=cases.valid_packing_case, floor=0.3),
         Leg("bc-search", evaluate,
             "hypothesis: bin_completion on planted-perfect (with slack), many-equal and mid-size uniform inputs, the "
             "classes where BFD does not meet the lower bound; same non-triviality rule",
